@@ -239,6 +239,20 @@ def check_dispatch(c, f, loop):
 
     def conds(n):
         return set((eqv(a_), v_) for a_, v_ in conditions(g, n))
+
+    def sent_text(n, k):
+        """what a `child.send(x)` sends, as text: x itself, or -- when x is a local that is bound several times (`response = responses[index]` in one
+        arm, `response = callback_result` in the other) -- the value of the one binding that reaches this send (it dominates the send and no other
+        binding of the local lies between them)"""
+        a0 = k.args[0]
+        if isinstance(a0, ast.Name):
+            binds = [m for m in g.nodes if m.kind == 'stmt' and isinstance(m.ast, ast.Assign) and len(m.ast.targets) == 1 and is_name(m.ast.targets[0], a0.id)]
+            if len(binds) > 1:
+                reach = [d for d in binds if g.dominated_by(n, {d})[0] and not any(o is not d and g.path(d, o, skip_labels=('exc',), include_start=False) is not None
+                                                                                   and g.path(o, n, avoid={d}, skip_labels=('exc',), include_start=False) is not None for o in binds)]
+                if len(reach) == 1:
+                    return eqv(norm(reach[0].ast.value))
+        return eqv(norm(a0))
     S = None
     for t in g.nodes:
         if t.kind == 'test' and t.ast is not None:
@@ -249,7 +263,7 @@ def check_dispatch(c, f, loop):
     c.need(S is not None, 'dispatch: isinstance(responses[index], <string types>) test not found')
     F, M = 'isinstance(%s, types.FunctionType)' % R, 'isinstance(%s, types.MethodType)' % R
     disp = lambda cs: set((a_, v_) for a_, v_ in cs if a_.startswith('isinstance(%s' % R))
-    sends = [(n, k) for n, k in cfg_nodes_with_call(f, lambda k: callee_last(k) == 'send') if k.args and eqv(norm(k.args[0])) == R]
+    sends = [(n, k) for n, k in cfg_nodes_with_call(f, lambda k: callee_last(k) == 'send') if k.args and sent_text(n, k) == R]
     ok = len(sends) == 1 and disp(conds(sends[0][0])) == {(S, True)}
     c.check(ok, f, sends[0][1] if sends else None, 'first case: a string response is sent to the child exactly once', witness=str([norm(k) for n, k in sends]), kind='path', tag='string-sent')
     # anything that is neither string nor function nor method raises TypeError -- under exactly that condition
@@ -271,7 +285,7 @@ def check_dispatch(c, f, loop):
         c.check(len(t3) == 1, f, t3[0].ast if t3 else cn.ast, 'a string result is recognised', kind='ast', tag='callback-string')
         if t3:
             s2 = [(n, k) for n, k in cfg_nodes_with_call(f, lambda k: callee_last(k) == 'send') if n in holds_region(g, t3[0], True)]
-            c.check(len(s2) == 1 and is_name(s2[0][1].args[0], rv), f, s2[0][1] if s2 else t3[0].ast, 'a string result is sent to the child once', kind='ast', tag='callback-sent')
+            c.check(len(s2) == 1 and (is_name(s2[0][1].args[0], rv) or sent_text(s2[0][0], s2[0][1]) == rv), f, s2[0][1] if s2 else t3[0].ast, 'a string result is sent to the child once', kind='ast', tag='callback-sent')
             t4 = [t for t in holds_region(g, t3[0], False) if t.kind == 'test' and norm(core(t)) == rv]
             brk = [n for t in t4 for n in holds_region(g, t, True) if n.kind == 'stmt' and isinstance(n.ast, ast.Break)]
             c.check(bool(brk), f, t4[0].ast if t4 else t3[0].ast, 'a true result stops the run', kind='path', tag='callback-stop')
